@@ -25,6 +25,12 @@ for (s,g,l) in [(1,2,1),(2,1,1),(2,2,1)]:
     for deps in ['None','One']:
         inst(s,g,l,2,2,0,deps,2,2)
         inst(s,g,l,2,1,0,deps,1,2)
+# three entries in one access list (new system or group table): size thresholds in list handling (seed C19-u)
+inst(1,1,1,1,1,0,'None',1,3)
+inst(1,1,1,1,1,0,'None',3,1)
+inst(1,2,1,2,1,0,'None',1,3)
+inst(1,1,1,3,1,0,'None',1,1)
+inst(1,1,1,1,3,0,'None',1,1)
 seen=set(); uniq=[]
 for o in out:
     n=o.split(':')[0].strip()
